@@ -18,6 +18,13 @@ NA = {
  "C20":"integer square root: pure function of x",
 }
 CLAIMED = {
+ "C16": dict(
+   category="exploration",
+   text="SCOPED to the surfaces that meet a device: serde encodings of Limb, Uint (1..8,16,32 limbs), Wrapping, Checked, NonZero, Odd, ConstMontyForm through a simulator-owned serde format (binary and human-readable, three visitor delivery styles, serializer/deserializer error injection, type confusion, payload faults incl. every truncation offset), bincode and serde_json; Display/LowerHex/UpperHex/Binary/Debug through a text sink of every capacity 0..len; and the Encoding::{to,from}_{le,be}_bytes / from_{le,be}_slice routes that feed them, checked positionally. Oracles: round trip; a faulted record is rejected or re-serializes to itself; size; positional expansion; sink content is a prefix of the full text and a refusal is reported as Err.",
+   design_ref="DESIGN.md section 4, C16",
+   note="NOT decided here (pure conversions without a seam, out of reach of this technique): const hex parsers, BoxedUint byte/hex decoding and its precision errors, From<primitive>/Int::from_i*, concat/split/resize/widen/shorten. Trusted: to_words()/from_words() bridge, the simulator's serde format and sink, bincode/serde_json framing.",
+   technique="deterministic simulation: serialize -> simulated medium with token/payload faults and device error injection -> deserialize; fmt into capacity-limited sink at every capacity",
+ ),
  "C18": dict(
    category="fault_enumeration",
    text="Record-store simulation of the DER and RLP codecs through their stream seams (der::Writer with a capacity, SliceWriter, SliceReader top-level and nested in a SEQUENCE, TryFrom<AnyRef>/<UintRef>, RlpStream, Rlp). Enumerated completely per width: every content length 0..=BYTES+4 x leading/second octet classes x tags x length-field forms x entry points; every truncation offset and appended length of sampled records; every writer capacity 0..=len+1. Seeded: values and 0-3 storage faults per record. Every decode is compared with a strict reference codec (Err, or Ok with exactly the value the canonical encoding denotes), every encode with the canonical reference encoding; decoders and encoders run under the panic monitor.",
